@@ -214,9 +214,22 @@ func c09OutEval(e *Env, c c09OutCase) {
 		e.R.Fail(ev.Fail{Class: class, Msg: fmt.Sprintf("crd %s with destination %s: %s", strings.Join(c.Args, " "), c.Dest, msg), Kind: "out", Case: c})
 	}
 	r := cli.Run(o, args...)
+	// a writer that builds the result elsewhere and then puts it in place of the -o path (temporary
+	// file + rename) does deliver it even where the path named a device or a read-only file
+	delivered := false
+	if r.Exit == 0 && strings.HasPrefix(c.Dest, "o-") && len(args) > 0 {
+		if st, err := os.Lstat(args[len(args)-1]); err == nil && st.Mode().IsRegular() {
+			plain := cli.Run(cli.Opt{Stdin: []byte(c.Stdin), Dir: dir}, c.Args...)
+			if b, err := os.ReadFile(args[len(args)-1]); err == nil && plain.OK() && bytes.Equal(b, plain.Stdout) && len(b) > 0 {
+				delivered = true
+			}
+		}
+	}
 	switch {
 	case r.TimedOut:
 		fail("C09/hang/"+key, "does not terminate")
+	case delivered:
+		e.R.Outcome("ok: the result was put in place of the -o path")
 	case r.Crashed():
 		fail("C09/crash/"+key+"/"+c09CrashKind(r.Stderr), "crashes: "+firstLineWith(r.Stderr, "panic", "fatal error", "signal"))
 	case r.Exit == 0 && (c.Dest == "o-read-only" || c.Dest == "in-unreadable") && os.Geteuid() == 0:
